@@ -143,6 +143,7 @@ class Ctx:
         self.known_hits = {}     # signature -> title
         self.notes = []
         self.known = load_known(pid)
+        self.vdrives = {}
 
     # ------------------------------------------------------------------ utilities
     @property
@@ -273,42 +274,52 @@ class Ctx:
         return res
 
     # ------------------------------------------------------------------ harness
-    def build_harness(self):
-        """Build vdrive with -tags verif from /repo's current working tree (incremental)."""
+    def build_harness(self, module):
+        """Build harness/cmd/<module> with -tags verif from /repo's current working tree (incremental)."""
         os.makedirs(os.path.join(WORK, "bin"), exist_ok=True)
-        binp = os.path.join(WORK, "bin", "vdrive")
-        lock = open(os.path.join(WORK, "build.lock"), "w")
+        tag = "" if REPO == "/repo" else "_" + re.sub(r"\W+", "_", REPO)
+        binp = os.path.join(WORK, "bin", "vdrive_" + module + tag)
+        lock = open(os.path.join(WORK, "build%s.lock" % tag), "w")
         fcntl.flock(lock, fcntl.LOCK_EX)
         try:
             t = time.time()
             gosum = os.path.join(HARNESS, "go.sum")
             if not os.path.exists(gosum):
                 shutil.copy(os.path.join(REPO, "go.sum"), gosum)
-            p = subprocess.run(["go", "build", "-tags", "verif", "-o", binp, "./cmd/vdrive"], cwd=HARNESS,
+            cmd = ["go", "build", "-tags", "verif", "-o", binp]
+            if tag:
+                # VERIF_REPO=<scratch worktree>: same harness sources, module replaced by that tree (used for mutation experiments)
+                mf = os.path.join(WORK, "bin", "go%s.mod" % tag)
+                with open(mf, "w") as fh:
+                    fh.write(open(os.path.join(HARNESS, "go.mod")).read().replace("=> /repo", "=> " + REPO))
+                shutil.copy(gosum, mf[:-4] + ".sum")
+                cmd += ["-modfile=" + mf]
+            p = subprocess.run(cmd + ["./cmd/" + module], cwd=HARNESS,
                                env=goenv(), stdout=subprocess.PIPE, stderr=subprocess.STDOUT, text=True)
             if p.returncode != 0:
                 raise Undecided("harness build failed:\n" + p.stdout[-4000:])
-            log("harness built in %.1fs" % (time.time() - t))
+            log("harness built in %.1fs (repo %s)" % (time.time() - t, REPO))
         finally:
             fcntl.flock(lock, fcntl.LOCK_UN)
             lock.close()
         # private copy so that a concurrent rebuild does not disturb this run
-        mine = self.path("vdrive")
+        mine = self.path("vdrive_" + module)
         shutil.copy(binp, mine)
-        self.vdrive = mine
+        self.vdrives[module] = mine
         return mine
 
     def drive(self, module, out, behaviours=None, opts=None, timeout=900, max_restarts=200):
         """Run a driver over a behaviours file; handle process aborts.  Returns dict(aborts=[...])."""
-        if not getattr(self, "vdrive", None):
-            self.build_harness()
+        if module not in self.vdrives:
+            self.build_harness(module)
+        vdrive = self.vdrives[module]
         if os.path.exists(out):
             os.remove(out)
         frm = 0
         aborts = []
         t_end = time.time() + timeout
         while True:
-            cmd = [self.vdrive, module, "-out", out, "-seed", str(self.seed), "-tier", self.tier, "-from", str(frm)]
+            cmd = [vdrive, module, "-out", out, "-seed", str(self.seed), "-tier", self.tier, "-from", str(frm)]
             if behaviours:
                 cmd += ["-in", behaviours]
             cmd += ["%s=%s" % kv for kv in (opts or {}).items()]
@@ -422,6 +433,12 @@ def load_known(pid):
     if os.path.exists(p):
         data = json.load(open(p))
         for k in data.get("known", []):
+            if k.get("property") == pid:
+                known[k["signature"]] = k
+    # per-property fragments (same record format, a plain list)
+    import glob as _glob
+    for f in sorted(_glob.glob(os.path.join(VERIF, "findings", "known_*.json"))):
+        for k in json.load(open(f)):
             if k.get("property") == pid:
                 known[k["signature"]] = k
     return known
